@@ -8,32 +8,38 @@ EXTENDS Naturals, TLC
 
 CONSTANT KS          \* key-size classes (in blocks) to distinguish; 0 = not keyed
 
-VARIABLES life, keyed
-vars == <<life, keyed>>
+(* hist: "fresh" (no full group processed under the key in force) | "used" (at least one   *)
+(* full group was) | "rekeyed" (keyed again AFTER a full group had been processed: whatever *)
+(* an implementation derives lazily from the key and caches must not survive this)          *)
+VARIABLES life, keyed, hist
+vars == <<life, keyed, hist>>
 
-Init == life = "zeroed" /\ keyed = 0
+Init == life = "zeroed" /\ keyed = 0 /\ hist = "fresh"
 Live == life = "live"
 
 DoInit(fail) ==
     /\ life # "live"
     /\ life' = (IF fail THEN "failed" ELSE "live")
-    /\ keyed' = 0
+    /\ keyed' = 0 /\ hist' = "fresh"
 
 DoCleanup ==
     /\ life' = (IF Live THEN "dead" ELSE life)
     /\ keyed' = (IF Live THEN 0 ELSE keyed)
+    /\ hist' = (IF Live THEN "fresh" ELSE hist)
 
 (* cls: valid (z = size class) | null | short | long | badrounds (z = 0) *)
 DoSetKey(cls, z) ==
     /\ keyed' = (IF Live /\ cls = "valid" THEN z ELSE keyed)
+    /\ hist' = (IF Live /\ cls = "valid" /\ hist # "fresh" THEN "rekeyed" ELSE hist)
     /\ UNCHANGED life
 
 (* Mantis only (ignored for the SKINNY kinds); on a keyed object *)
 DoSwap == (Live => keyed # 0) /\ UNCHANGED vars
 
 (* cls: zero | one | below (psize - 1 block) | batch (exactly 8 blocks) | above (2*8+3 blocks) | ragged *)
-DoEncrypt(cls) == UNCHANGED vars
-DoDecrypt(cls) == UNCHANGED vars
+Group(cls) == cls \in {"batch", "above"}
+DoEncrypt(cls) == hist' = (IF Live /\ keyed # 0 /\ Group(cls) THEN "used" ELSE hist) /\ UNCHANGED <<life, keyed>>
+DoDecrypt(cls) == hist' = (IF Live /\ keyed # 0 /\ Group(cls) THEN "used" ELSE hist) /\ UNCHANGED <<life, keyed>>
 
 Next ==
     \/ \E f \in BOOLEAN : DoInit(f)
